@@ -114,6 +114,14 @@ pub(crate) fn sampled(rng: &mut Rng) -> Scenario {
                 sc.faults.push(f);
             }
         }
+        4 => {
+            // transient non-finite values: the retry paths (NaN error norm, non-finite dense
+            // stage, failed Newton iteration) have their own counter bookkeeping
+            let n = rng.int(2, node as usize + 1) as u64;
+            let trigger = if rng.bool(0.6) { Trigger::At(n) } else { Trigger::Burst(n, rng.int(2, 4) as u64) };
+            let kind = *rng.pick(&[FaultKind::NanAll, FaultKind::NanOne, FaultKind::PosInf, FaultKind::NegInf]);
+            sc.faults.push(make_fault(rng, trigger, kind, sc.prob.dim()));
+        }
         _ => {}
     }
     sc
@@ -127,7 +135,7 @@ impl Prop for C18 {
         "exploration"
     }
     fn rule(&self) -> String {
-        "seeded swarm over problems (incl. hostile ones), methods, tolerances, directions, analytic vs the crate's own finite-difference Jacobian (run for real through an adapter so that its internal RHS calls are tagged), high-level and low-level entry, and every abnormal exit the simulator can produce: Interrupt / ModifiedSolution at chosen callbacks, step budget, persistent non-finite RHS fault, transient glitches forcing rejections, terminal events, zero-length and tiny intervals. Non-trivial = the run made at least 3 accepted steps or ended abnormally; distinct = distinct run fingerprint.".into()
+        "seeded swarm over problems (incl. hostile ones), methods, tolerances, directions, analytic vs the crate's own finite-difference Jacobian (run for real through an adapter so that its internal RHS calls are tagged), high-level and low-level entry, and every abnormal exit the simulator can produce: Interrupt / ModifiedSolution at chosen callbacks, step budget, persistent non-finite RHS fault, transient glitches forcing rejections, transient non-finite values (retry paths), terminal events, zero-length and tiny intervals. Non-trivial = the run made at least 3 accepted steps or ended abnormally; distinct = distinct run fingerprint.".into()
     }
     fn assumptions(&self) -> Vec<String> {
         vec![
